@@ -225,6 +225,23 @@ P_Data(c, obs) ==
        /\ lastObs' = [ev |-> "data", want |-> r, got |-> obs]
        /\ UNCHANGED <<socks, bindOk, freshOk>>
 
+(* A SYN from (sa, sp) to (da, dp) whose handshake is never completed (the wire *)
+(* loses every answer, no ACK and no RST ever comes back) until the stack gives *)
+(* up retransmitting.  Such a half-open connection is never handed to any       *)
+(* application, so it is no socket in the sense of the statement: `socks` does  *)
+(* not change - in particular it can never be the reason for a later AddrInUse  *)
+(* once the listener is closed ("closing a socket frees its binding").  The     *)
+(* first answer is judged like any SYN probe (which socket the SYN reached).    *)
+P_Stall(from, fam, sa, sp, da, dp, reply) ==
+    LET r == RefTcp(socks, from, fam, sa, sp, da, dp)
+        ok == CASE r.k = "none" -> reply = "none"
+                [] r.k = "conn" -> reply # "synack"
+                [] r.k = "listener" -> reply = "synack"
+                [] OTHER -> reply = "rst"
+    IN /\ demuxOk' = (demuxOk /\ ok)
+       /\ lastObs' = [ev |-> "stall", want |-> r, reply |-> reply]
+       /\ UNCHANGED <<socks, bindOk, freshOk>>
+
 \* start of a new recorded run (trace validation only)
 P_Reset ==
     /\ socks' = <<>>
